@@ -23,6 +23,9 @@ import (
 // the driver parses the detector's log files and keeps the reports that touch library code.
 
 func c15apiMix(rep *vh.Report, seed uint64, idx int) {
+	if aborted() {
+		return
+	}
 	r := vh.Sub(seed, fmt.Sprintf("c15-mix-%d", idx))
 	hookReset(r.U64(), true, true)
 	k := 3 + r.Intn(2)
@@ -170,7 +173,9 @@ func c15apiMix(rep *vh.Report, seed uint64, idx int) {
 	}
 	time.Sleep(time.Duration(vh.Pick(120, 400)+r.Intn(100)) * time.Millisecond)
 	// Close races with everything
-	node.Close()
+	if !safeClose(rep, node) {
+		return
+	}
 	atomic.StoreInt32(&stop, 1)
 	wg.Wait()
 	<-cons.done
@@ -253,6 +258,8 @@ func c15long(rep *vh.Report) {
 		}
 		time.Sleep(2 * time.Millisecond)
 	}
-	node.Close()
+	if !safeClose(rep, node) {
+		return
+	}
 	rep.Count("long_run_over_30s", 1)
 }
